@@ -426,14 +426,22 @@ def parseHttpSigFullL (s : Str) : Option HttpSigL := full parseHttpSigL s
 /-- `<http::Signature as FromStr>::from_str` -/
 def parseHttpSigFull (s : Str) : Option HttpSig := (parseHttpSigFullL s).map HttpSigL.toSig
 
+/-- `alt((map(tag("!"), |_| None), map(take_until(":"), Some)))` -/
+def parseLabelClass : Parser (Option Str) :=
+  alt [fun s => (tag ['!'] s).map fun (_, r) => (none, r),
+       fun s => (takeUntil ':' s).map fun (c, r) => (some c, r)]
+
+/-- `opt(preceded(tag(":"), rest))` -/
+def parseLabelFlavor : Parser (Option Str) :=
+  opt (fun s => match colon s with | some (_, r) => rest r | none => none)
+
 def parseLabelL : Parser LabelL := fun s => do
   let (ty, s) ← parseLabelType s
   let (_, s) ← colon s
-  let (cls, s) ← alt [fun s => (tag ['!'] s).map fun (_, r) => (none, r),
-                      fun s => (takeUntil ':' s).map fun (c, r) => (some c, r)] s
+  let (cls, s) ← parseLabelClass s
   let (_, s) ← colon s
   let (name, s) ← takeUntil ':' s
-  let (flavor, s) ← opt (fun s => match colon s with | some (_, r) => rest r | none => none) s
+  let (flavor, s) ← parseLabelFlavor s
   pure ({ ty, cls, name, flavor := flavor.bind fun f => if f.isEmpty then none else some f }, s)
 
 def parseLabelFull (s : Str) : Option Label := (full parseLabelL s).map LabelL.toSig
@@ -555,6 +563,11 @@ def tableOf (m : Str) (d : Option Str) : Option TableId :=
 
 def mtuKw : Str := "mtu".toList
 
+/-- `uN::from_str` accepts one leading `+` -/
+def stripPlus : Str → Str
+  | '+' :: r => r
+  | s => s
+
 /-- one non-comment line inside module `(m, d)` -/
 def loadNamed (db : Db) (m : Str) (d : Option Str) (line : Str) : Except LoadErr Db :=
   match parseNamedValue line with
@@ -567,7 +580,7 @@ def loadNamed (db : Db) (m : Str) (d : Option Str) (line : Str) : Except LoadErr
       | [] => .error .mtuNoLabel
       | _ :: _ =>
         -- `value.parse::<u16>()`: optional `+`, then at least one ASCII digit, value ≤ 65535
-        let ds := match value with | '+' :: r => r | _ => value
+        let ds := stripPlus value
         if ds ≠ [] ∧ ds.all Char.isDigit ∧ decVal ds ≤ u16Max then
           match pushLast db.mtu (decVal ds) with
           | some t => .ok { db with mtu := t }
